@@ -283,6 +283,7 @@ func Prelude(li *LangInfo, native bool) string {
 	w("(declare-fun f_msg (Err) Str)")
 	w("(declare-fun f_plainErr (Err) Bool)") // errors.New / fmt.Errorf without %%w: Is == identity
 	w("(assert (forall ((e Err)) (! (f_is e e) :pattern ((f_is e e)))))")
+	w("(assert (forall ((t Err)) (! (=> (f_is nilErr t) (= t nilErr)) :pattern ((f_is nilErr t)))))") // errors.Is(nil, t) == (t == nil)
 	w("(assert (forall ((e Err) (t Err)) (! (=> (and (f_plainErr e) (f_is e t)) (= e t)) :pattern ((f_is e t)))))")
 	w("(declare-fun f_errNew (Int Str) Err)")
 	w("(assert (forall ((r Int) (m Str)) (! (and (= (f_eref (f_errNew r m)) r) (= (f_msg (f_errNew r m)) m) (f_plainErr (f_errNew r m))) :pattern ((f_errNew r m)))))")
